@@ -296,16 +296,24 @@ int EvalExpression::parse_unary_new(AsmContext *asm_context, Var &answer)
     if (run(asm_context, answer, true) != 0) { return -1; }
   }
     else
-  if (IS_TOKEN(token, '~'))
+  if (IS_TOKEN(token, '~') || IS_TOKEN(token, '-'))
   {
-    if (parse_unary_new(asm_context, answer) != 0) { return -1; }
-    answer.complement();
-  }
-    else
-  if (IS_TOKEN(token, '-'))
-  {
-    if (parse_unary_new(asm_context, answer) != 0) { return -1; }
-    answer.negative();
+    const bool is_complement = IS_TOKEN(token, '~');
+
+    // Every further unary operator recurses, so limit the nesting.
+    if (asm_context->expression_depth >= MAX_EXPRESSION_DEPTH)
+    {
+      print_error(asm_context, "Expression nested too deep");
+      return -1;
+    }
+
+    asm_context->expression_depth++;
+    int ret = parse_unary_new(asm_context, answer);
+    asm_context->expression_depth--;
+
+    if (ret != 0) { return -1; }
+
+    if (is_complement) { answer.complement(); } else { answer.negative(); }
   }
     else
   {
